@@ -12,7 +12,7 @@ func init() { props["C04"] = runC04 }
 
 func runC04(ctx *Ctx) error {
 	r, res := ctx.Rng, ctx.Res
-	res.Rule = "for each message (several sizes, with and without attachments) and data-block size, the transfer SOH..EOT as sent by a conforming master is altered in transit: every single-byte substitution at every offset (quick: two values per offset, thorough: eight), every single-byte deletion, insertions at every offset, checksum-compensating pairs (+d at i, -d at j), and checksum-compensating changes of the payload's embedded CRC-16 (forced to 0000, ffff, swapped) and size field; the same in the first transfer of a block of two accepted messages, the second being intact. The altered stream is fed to a real slave Session; its answer stream is fed to a real master Session holding the message. Oracle: a message handed to the inbound handler is byte-identical to the queued one (alterations that leave the payload intact, e.g. in the title, are the ones an independent reference accepts too), otherwise nothing is delivered; the sender records the message as sent only if the receiver delivered it. Correspondence: the receiving side vs the model side on the same altered bytes. Non-trivial: alteration inside the framed payload; distinct by (message, alteration)."
+	res.Rule = "for each message (several sizes, with and without attachments) and data-block size, the transfer SOH..EOT as sent by a conforming master is altered in transit: every single-byte substitution at every offset (quick: two values per offset, thorough: eight), every single-byte deletion, insertions at every offset, checksum-compensating pairs (+d at i, -d at j), and checksum-compensating changes of the payload's embedded CRC-16 (forced to 0000, ffff, swapped) and size field; the same in the first transfer of a block of two accepted messages, the second being intact; payloads altered in two bytes so that the embedded CRC-16 still holds (collisions found through the CRC's linearity) and re-framed. The altered stream is fed to a real slave Session; its answer stream is fed to a real master Session holding the message. Oracle: a message handed to the inbound handler is byte-identical to the queued one (alterations that leave the payload intact, e.g. in the title, are the ones an independent reference accepts too), otherwise nothing is delivered; the sender records the message as sent only if the receiver delivered it. Correspondence: the receiving side vs the model side on the same altered bytes. Non-trivial: alteration inside the framed payload; distinct by (message, alteration)."
 	var lines, impl []string
 	var cases []interface{}
 	nmsg := ctx.N(3, 12)
@@ -148,6 +148,111 @@ func runC04(ctx *Ctx) error {
 			}
 			if a.kind == "compensating-pair" && len(res.Samples) < 2 {
 				res.Sample(cs)
+			}
+		}
+	}
+	// payloads altered in two bytes so that the embedded CRC-16 STILL holds (found through the
+	// linearity of the CRC, not by luck), re-framed with a correct block checksum: the session's
+	// last line of defence is then the codec's own verdict (size, overrun) and the message
+	// parser. Only alterations that the independent reference decoder accepts too are excluded.
+	type crcCase struct {
+		cs        map[string]interface{}
+		cd        []byte
+		delivered []byte
+		sent      bool
+	}
+	var crcCases []crcCase
+	var crcLines []string
+	for ci := 0; ci < ctx.N(2, 6); ci++ {
+		mid := r.Mid()
+		m := r.Message("LA5NTA", mid)
+		want, _ := m.Bytes()
+		cd := compressB2(want)
+		if len(cd) < 40 || len(cd) > 6000 {
+			continue
+		}
+		n := len(cd)
+		// delta[j][b]: contribution to the final CRC of XOR-ing b into payload byte j
+		step := func(s uint16, b byte) uint16 {
+			s ^= uint16(b) << 8
+			for i := 0; i < 8; i++ {
+				if s&0x8000 != 0 {
+					s = s<<1 ^ 0x1021
+				} else {
+					s <<= 1
+				}
+			}
+			return s
+		}
+		type jb struct {
+			j int
+			b byte
+		}
+		seen := map[uint16]jb{}
+		var pairs [][2]jb
+		for b := 1; b < 256 && len(pairs) < 400; b++ {
+			sv := step(0, byte(b))
+			for k := 0; k < n-6; k++ { // position j = n-1-k, never the CRC or size field
+				j := n - 1 - k
+				if o, ok := seen[sv]; ok && o.j != j {
+					pairs = append(pairs, [2]jb{o, {j, byte(b)}})
+				} else if !ok {
+					seen[sv] = jb{j, byte(b)}
+				}
+				sv = step(sv, 0)
+			}
+		}
+		slave := sideCfg{Master: false, Mycall: "LA1B", Target: "LA5NTA", Locator: "JO59jw", Handler: true, Policy: map[string]fbb.ProposalAnswer{}, Fail: map[string]bool{}}
+		master := sideCfg{Master: true, Mycall: "LA5NTA", Target: "LA1B", Locator: "JP20qh", Handler: true, Outbox: []*fbb.Message{m}, Policy: map[string]fbb.ProposalAnswer{}, Fail: map[string]bool{}}
+		for k := 0; k < ctx.N(60, 400) && len(pairs) > 0; k++ {
+			pr := pairs[r.Intn(len(pairs))]
+			alt := append([]byte(nil), cd...)
+			alt[pr[0].j] ^= pr[0].b
+			alt[pr[1].j] ^= pr[1].b
+			if xmodem(append(append([]byte(nil), alt[2:]...), 0, 0)) != xmodem(append(append([]byte(nil), cd[2:]...), 0, 0)) {
+				continue // (the linearity argument failed: not a collision after all)
+			}
+			stream := scriptMaster([]scriptMsg{{mid, len(want), alt}}, 250)
+			cs := map[string]interface{}{"alteration": "two payload bytes changed, embedded CRC-16 still valid, block checksum recomputed", "mid": mid, "payload_offsets": []int{pr[0].j, pr[1].j}, "xor": []int{int(pr[0].b), int(pr[1].b)}, "payload_len": n}
+			ctx.Mark(cs)
+			ob := runSide(slave, stream, 0)
+			res.Eval(fmt.Sprintf("crc:%d:%d:%d:%d:%d", ci, pr[0].j, pr[0].b, pr[1].j, pr[1].b), true)
+			res.Count("crc-colliding-payload")
+			if ob.Res == "panic" || ob.Res == "hang" {
+				res.Fail(Failure{Kind: "oracle", Site: "receiver-" + ob.Res, Case: cs, Detail: ob.Err})
+				continue
+			}
+			var raw []byte
+			for _, w := range ob.Writes {
+				raw = append(raw, w...)
+			}
+			oa := runSide(master, raw, 0)
+			sent := oa.Res != "panic" && oa.Res != "hang" && oa.Handler.sent[mid] > 0
+			delivered := ob.Handler.processed[mid] > 0
+			if !delivered {
+				if sent {
+					res.Fail(Failure{Kind: "oracle", Site: "sent-but-not-delivered", Case: cs})
+				}
+				if len(ob.Handler.processed) > 0 {
+					res.Fail(Failure{Kind: "oracle", Site: "damaged-message-delivered", Case: cs, Detail: "a message with another identifier was handed over"})
+				}
+				continue
+			}
+			// delivered: acceptable only if the independent reference decodes this payload too
+			crcCases = append(crcCases, crcCase{cs, alt, ob.Handler.inbox[mid], sent})
+			crcLines = append(crcLines, "canondec b1 "+tx(alt))
+		}
+	}
+	if len(crcLines) > 0 {
+		vout, err := ctx.Model.RunParallel(crcLines, 8)
+		if err != nil {
+			return err
+		}
+		for i, c := range crcCases {
+			if !strings.HasPrefix(vout[i], "some ") {
+				res.Fail(Failure{Kind: "oracle", Site: "damaged-message-delivered", Case: c.cs, Detail: "the payload keeps its CRC-16 but the independent reference decoder refuses it (" + trunc(vout[i]) + "); the session delivered a message"})
+			} else {
+				res.Count("crc-colliding-payload-accepted-by-the-reference-too")
 			}
 		}
 	}
